@@ -134,14 +134,19 @@ def verify_number_token(rep, idxs, member):
     ok = True
     # (a) helper functions that assign `value` on every path
     writers = set()
-    for nm in ('readDecInt', 'readHexInt'):
-        for g in idx.funcs_named('%s::Lexer::%s' % (ns, nm)):
-            if g.body is None:
+    lexrec = idx.records.get('%s::Lexer' % ns)
+    for _ in range(3):          # to a fixpoint: a writer may delegate to another writer (a shared scanning helper)
+        for g in (lexrec.methods if lexrec is not None else []):
+            if g.body is None or g.name in writers or g.name in ('readToken', 'getNextToken'):
                 continue
-            cl = ValueWrittenClient(idx, set(), None)
-            o = flow.Flow(cl, idx).run(g.body, {False})
-            if all(o.normal) and o.normal:
-                writers.add(nm)
+            cl = ValueWrittenClient(idx, set(writers), None)
+            try:
+                o = flow.Flow(cl, idx).run(g.body, {False})
+            except AnalysisBroken:
+                continue
+            exits = list(o.normal) + [s_ for s_, _ in o.ret]
+            if exits and all(exits):
+                writers.add(g.name)
     # (b) readToken: every NUMBER production has written value
     rt = idx.func('%s::Lexer::readToken' % ns)
     cl = ValueWrittenClient(idx, writers, None)
